@@ -19,7 +19,7 @@ use swimos_agent_protocol::{DownlinkNotification, DownlinkOperation, MapMessage,
 use swimos_api::address::RelativeAddress;
 use swimos_messages::protocol::{Notification, Operation, RawRequestMessageDecoder, RawResponseMessageEncoder, ResponseMessage};
 use swimos_model::Text;
-use swimos_runtime::downlink::failure::AlwaysAbortStrategy;
+use swimos_runtime::downlink::failure::{AlwaysAbortStrategy, AlwaysIgnoreStrategy};
 use swimos_runtime::downlink::{AttachAction, DownlinkOptions, DownlinkRuntimeConfig, IdentifiedAddress, MapDownlinkRuntime, ValueDownlinkRuntime};
 use swimos_utilities::byte_channel::{byte_channel, BudgetedFutureExt, ByteReader, ByteWriter};
 use swimos_utilities::trigger;
@@ -54,6 +54,8 @@ enum LOp {
     Upd(i32, i32),
     Rem(i32),
     Clr,
+    /// (remote lane only) an event whose body is no map operation: the map runtime cannot interpret it
+    Bad,
 }
 
 #[derive(Clone, Debug, PartialEq, Eq, serde::Serialize, serde::Deserialize)]
@@ -98,6 +100,10 @@ struct Cfg {
     /// new consumers and incoming messages is unbiased
     #[serde(default)]
     seed: u64,
+    /// map runtime: bad frames are ignored (`AlwaysIgnoreStrategy`, what `abort_on_bad_frames: false`
+    /// selects) instead of ending the runtime
+    #[serde(default)]
+    ignore_bad: bool,
 }
 
 type LaneState = BTreeMap<i32, i32>; // value lane: key 0 -> value; absent = Extant/None
@@ -255,6 +261,7 @@ fn lop_text(op: &LOp) -> String {
         LOp::Upd(k, v) => format!("@update(key:{}) {}", k, v),
         LOp::Rem(k) => format!("@remove(key:{})", k),
         LOp::Clr => "@clear".to_string(),
+        LOp::Bad => "@bogus(key:1) 5".to_string(),
     }
 }
 
@@ -298,6 +305,7 @@ fn apply(state: &mut LaneState, op: &LOp) {
             state.remove(k);
         }
         LOp::Clr => state.clear(),
+        LOp::Bad => {}
     }
 }
 
@@ -372,6 +380,7 @@ impl World for DlWorld {
         let budget = NonZeroUsize::new(cfg.budget.max(2)).unwrap();
         let subject: Subject<()> = match cfg.kind {
             Kind::Value => Subject::new(tokio::task::unconstrained(ValueDownlinkRuntime::new(att_rx, (req_tx, resp_rx), stop_rx, address, config).run().with_budget(budget))),
+            Kind::Map if cfg.ignore_bad => Subject::new(tokio::task::unconstrained(MapDownlinkRuntime::new(att_rx, (req_tx, resp_rx), stop_rx, address, config, AlwaysIgnoreStrategy).run().with_budget(budget))),
             Kind::Map => Subject::new(tokio::task::unconstrained(MapDownlinkRuntime::new(att_rx, (req_tx, resp_rx), stop_rx, address, config, AlwaysAbortStrategy).run().with_budget(budget))),
         };
         let sock = Sock {
@@ -661,6 +670,7 @@ impl DlWorld {
                         }
                     }
                     match &o {
+                        Out::Change(LOp::Bad) => {}
                         Out::Change(op) => {
                             apply(&mut self.sock.state, op);
                             let st = self.sock.state.clone();
@@ -1312,7 +1322,7 @@ pub fn run_main() {
                             continue;
                         }
                         for seed in if remote_buf == 16 && dl_buf == 16 && !quick { vec![0u64, 1, 2] } else if remote_buf == 16 && dl_buf == 16 && budget == 64 { vec![0u64, 1] } else { vec![0u64] } {
-                            cfgs.push(Cfg { kind, script: script.clone(), consumers: *consumers, remote_buf, dl_buf, sock_credit: if remote_buf == 16 { 5 } else { 0 }, budget, mode, ticks: 0, no_final_stop: false, seed });
+                            cfgs.push(Cfg { kind, script: script.clone(), consumers: *consumers, remote_buf, dl_buf, sock_credit: if remote_buf == 16 { 5 } else { 0 }, budget, mode, ticks: 0, no_final_stop: false, seed, ignore_bad: false });
                         }
                     }
                 }
@@ -1328,7 +1338,7 @@ pub fn run_main() {
                         if quick && mode == Mode::SlowRead {
                             continue;
                         }
-                        cfgs.push(Cfg { kind, script: script.clone(), consumers: 1, remote_buf: 16, dl_buf: 4096, sock_credit: 5, budget: 64, mode, ticks: 0, no_final_stop: false, seed: 0 });
+                        cfgs.push(Cfg { kind, script: script.clone(), consumers: 1, remote_buf: 16, dl_buf: 4096, sock_credit: 5, budget: 64, mode, ticks: 0, no_final_stop: false, seed: 0, ignore_bad: false });
                     }
                 }
             }
@@ -1338,11 +1348,32 @@ pub fn run_main() {
             .iter()
             .filter(|(s, _)| s.len() <= 5)
             .flat_map(|(script, consumers)| {
-                [2usize, 64].into_iter().map(move |budget| Cfg { kind, script: script.clone(), consumers: *consumers, remote_buf: 16, dl_buf: 16, sock_credit: 5, budget, mode: Mode::Eager, ticks: 0, no_final_stop: false, seed: 0 })
+                [2usize, 64].into_iter().map(move |budget| Cfg { kind, script: script.clone(), consumers: *consumers, remote_buf: 16, dl_buf: 16, sock_credit: 5, budget, mode: Mode::Eager, ticks: 0, no_final_stop: false, seed: 0, ignore_bad: false })
             })
             .collect();
         let name = format!("dl-{}-core-d2", if kind == Kind::Value { "value" } else { "map" });
         run_cfgs(&ctx, &name, core, if quick { 2 } else { 3 }, if quick { 20_000 } else { 2_000_000 }, if quick { 10.0 } else { 900.0 });
+    }
+    // a remote that sends an event the map runtime cannot interpret, with the strategy that ignores
+    // bad frames: the consumers see exactly the lane's (good) events, in order
+    {
+        let att = |sync: bool| Step::Attach(sync, true);
+        let bad = || (0usize, Step::Lane(LOp::Bad));
+        let scripts: Vec<(Vec<(usize, Step)>, usize)> = vec![
+            (vec![(1, att(true)), (0, Step::Lane(LOp::Upd(1, 101))), bad(), (0, Step::Lane(LOp::Upd(2, 102)))], 1),
+            (vec![(1, att(false)), bad(), (0, Step::Lane(LOp::Upd(1, 101))), (2, att(true)), bad(), (0, Step::Lane(LOp::Rem(1)))], 2),
+            (vec![(1, att(true)), (0, Step::Lane(LOp::Upd(1, 101))), bad()], 1),
+            (vec![(0, Step::Lane(LOp::Upd(1, 101))), bad(), (1, att(true)), (0, Step::Lane(LOp::Clr)), bad(), (1, Step::Cmd(LOp::Upd(3, 1)))], 1),
+        ];
+        let mut cfgs = vec![];
+        for (script, consumers) in &scripts {
+            for (remote_buf, dl_buf) in [(16usize, 16usize), (4096, 4096)] {
+                for mode in [Mode::Eager, Mode::Burst, Mode::SlowRead] {
+                    cfgs.push(Cfg { kind: Kind::Map, script: script.clone(), consumers: *consumers, remote_buf, dl_buf, sock_credit: if remote_buf == 16 { 5 } else { 0 }, budget: 64, mode, ticks: 0, no_final_stop: false, seed: 0, ignore_bad: true });
+                }
+            }
+        }
+        run_cfgs(&ctx, "dl-map-bad-frames-d1", cfgs, 1, 20_000, if quick { 6.0 } else { 300.0 });
     }
     asys::mapq::run_runtime(&ctx);
     ctx.assume("the socket is a reactive model of a well-behaved lane: it answers each @link/@sync it reads and applies each @command, at a schedule-chosen pace");
@@ -1488,7 +1519,7 @@ pub fn run_timeouts_leg(ctx: &Ctx) {
         for (remote_buf, dl_buf) in [(4096usize, 4096usize), (16, 16)] {
             for budget in [2usize, 64] {
                 for mode in [Mode::Eager, Mode::Burst, Mode::SlowAfterLink] {
-                    cfgs.push(Cfg { kind: *kind, script: script.clone(), consumers: *consumers, remote_buf, dl_buf, sock_credit: if remote_buf == 16 { 5 } else { 0 }, budget, mode, ticks: 2, no_final_stop: true, seed: 0 });
+                    cfgs.push(Cfg { kind: *kind, script: script.clone(), consumers: *consumers, remote_buf, dl_buf, sock_credit: if remote_buf == 16 { 5 } else { 0 }, budget, mode, ticks: 2, no_final_stop: true, seed: 0, ignore_bad: false });
                 }
             }
         }
